@@ -5,8 +5,8 @@ import subprocess, sys, os, glob, json, time
 seeded_only = "--seeded" in sys.argv
 # --shadow: patch /tmp/wt-verify instead of /repo and run the checks against it (VERIF_REPO), so that
 # /repo stays untouched while other runs read it
-REPO = "/tmp/wt-verify" if "--shadow" in sys.argv else "/repo"
-ENV = dict(os.environ, VERIF_REPO=REPO) if REPO != "/repo" else dict(os.environ)
+REPO = "/tmp/wt-verify2" if "--shadow2" in sys.argv else "/tmp/wt-verify" if "--shadow" in sys.argv else "/repo"
+ENV = dict(os.environ, VERIF_REPO=REPO, VERIF_SHADOW="/tmp/verif-shadow2" if "--shadow2" in sys.argv else "/tmp/verif-shadow") if REPO != "/repo" else dict(os.environ)
 args = [a for a in sys.argv[1:] if not a.startswith("--")]
 props = args or sorted(os.listdir("/verif/mutations"))
 subprocess.run(["git", "-C", REPO, "diff", "--quiet"], check=True)
